@@ -138,7 +138,8 @@ fn child() {
                         match op["op"].as_str().unwrap() {
                             "new_default" => {
                                 let d = op["d"].as_u64().unwrap();
-                                let (c, _) = RecCollector::new(d, filters[&d].clone(), log.clone());
+                                let (mut c, _) = RecCollector::new(d, filters[&d].clone(), log.clone());
+                                c.log_filtering = true;
                                 let disp = Dispatch::new(c);
                                 let g = dispatch::set_default(&disp);
                                 cur = Some((d, disp, g));
@@ -152,7 +153,8 @@ fn child() {
                             "rebuild" => tracing_core::callsite::rebuild_interest_cache(),
                             "set_global" => {
                                 let d = op["d"].as_u64().unwrap();
-                                let (c, _) = RecCollector::new(d, filters[&d].clone(), log.clone());
+                                let (mut c, _) = RecCollector::new(d, filters[&d].clone(), log.clone());
+                                c.log_filtering = true;
                                 let disp = Dispatch::new(c);
                                 let ok = dispatch::set_global_default(disp.clone()).is_ok();
                                 o["ok"] = json!(ok);
@@ -214,6 +216,33 @@ fn child() {
                               "sites": slog.iter().map(|(t, s)| format!("{}:{}", t, s)).collect::<Vec<_>>()}));
     // quiescence: every collector that is still alive, installed on the main thread, gets exactly what it accepts
     let surv = survivors.lock().unwrap().clone();
+    // C04 "every callsite is offered to every collector that is live afterwards": the callsites that were hit, and
+    // per surviving collector the callsites its register_callsite was called for (so far)
+    let offered: Vec<Value> = surv
+        .iter()
+        .map(|(d, _)| {
+            let l = log.lock().unwrap();
+            let mut cs: Vec<Value> = l
+                .iter()
+                .filter(|c| c["call"] == "register_callsite" && c["col"] == *d)
+                .map(|c| json!({"lvl": c["lvl"], "tgt": c["tgt"], "k": if c["name"].as_str().unwrap_or("").starts_with("event ") { "event" } else { "span" }}))
+                .collect();
+            cs.sort_by_key(|c| c.to_string());
+            cs.dedup();
+            json!({"d": d, "cs": cs})
+        })
+        .collect();
+    let registered: Vec<Value> = {
+        let l = log.lock().unwrap();
+        let mut cs: Vec<Value> = l
+            .iter()
+            .filter(|c| c["call"] == "register_callsite")
+            .map(|c| json!({"lvl": c["lvl"], "tgt": c["tgt"], "k": if c["name"].as_str().unwrap_or("").starts_with("event ") { "event" } else { "span" }}))
+            .collect();
+        cs.sort_by_key(|c| c.to_string());
+        cs.dedup();
+        cs
+    };
     let mut fin = vec![];
     VT.with(|v| v.set(99));
     let mut all: Vec<(u64, Dispatch)> = surv;
@@ -243,7 +272,7 @@ fn child() {
         let r2 = h.modify(|f| *f = tracing_subscriber::filter::LevelFilter::TRACE).is_err();
         r1 && r2 && before == rank_of_filter(&tracing_core::LevelFilter::current())
     };
-    runner::child_emit(json!({"ev": "final", "ml": rank_of_filter(&tracing_core::LevelFilter::current()), "round": fin, "dead_handle_err": dead}));
+    runner::child_emit(json!({"ev": "final", "ml": rank_of_filter(&tracing_core::LevelFilter::current()), "round": fin, "dead_handle_err": dead, "offered": offered, "registered": registered}));
     std::process::exit(0);
 }
 
